@@ -300,6 +300,11 @@ pub(super) fn gather_nesting_level(trimmed: &str) -> usize {
     level
 }
 
+/// A label is an identifier: letters, digits and underscores, at least one of them.
+pub fn is_label_name(name: &str) -> bool {
+    !name.is_empty() && name.chars().all(|c| c.is_alphanumeric() || c == '_')
+}
+
 pub fn parse_choice_prefixes(
     input: &str,
 ) -> Result<(Option<String>, Vec<Condition>, &str), CompilerError> {
@@ -311,8 +316,11 @@ pub fn parse_choice_prefixes(
         let end = after_open.find(')').ok_or_else(|| {
             CompilerError::invalid_source("choice label is missing ')'".to_owned())
         })?;
-        label = Some(after_open[..end].trim().to_owned());
-        remainder = after_open[end + 1..].trim_start();
+        // Only a name in parentheses is a label; anything else, `()` included, is text.
+        if is_label_name(after_open[..end].trim()) {
+            label = Some(after_open[..end].trim().to_owned());
+            remainder = after_open[end + 1..].trim_start();
+        }
     }
 
     while let Some(after_open) = remainder.strip_prefix('{') {
